@@ -394,11 +394,19 @@ Model randomModel(vh::Rng& rng, bool oilInjector) {
     Model m;
     int n = m.nx * m.ny * m.nz;
     auto rnd = [&](double lo, double hi) { return lo + (hi - lo) * rng.unit(); };
-    for (int i = 0; i < n; ++i) {
-        m.dx.push_back(rnd(20, 200)); m.dy.push_back(rnd(20, 200)); m.dz.push_back(rnd(1, 20));
+    // a consistent box grid (DX depends on i only, DY on j, DZ on k, flat top): every cell is a box, so the
+    // conditioning of its volume w.r.t. the corner coordinates is known (see the tolerance in the comparison)
+    std::vector<double> dxI, dyJ, dzK;
+    for (int i = 0; i < m.nx; ++i) dxI.push_back(rnd(20, 200));
+    for (int j = 0; j < m.ny; ++j) dyJ.push_back(rnd(20, 200));
+    for (int k = 0; k < m.nz; ++k) dzK.push_back(rnd(1, 20));
+    for (int k = 0; k < m.nz; ++k) for (int j = 0; j < m.ny; ++j) for (int i = 0; i < m.nx; ++i) {
+        m.dx.push_back(dxI[i]); m.dy.push_back(dyJ[j]); m.dz.push_back(dzK[k]);
         m.poro.push_back(rnd(0.05, 0.35)); m.permx.push_back(rnd(1e-15, 2e-12));
     }
-    for (int i = 0; i < m.nx * m.ny; ++i) m.tops.push_back(rnd(1500, 2500));
+    const double top = rnd(1500, 2500);
+    for (int i = 0; i < m.nx * m.ny; ++i) m.tops.push_back(top);
+    (void) n;
     m.datumDepth = rnd(1500, 2600); m.datumP = rnd(1e7, 4e7); m.owc = rnd(2000, 2700); m.pcowc = rnd(0, 1e5);
     m.goc = rnd(1000, 1500); m.pcgoc = rnd(0, 1e5);
     m.pvtwPref = rnd(1e7, 4e7); m.pvtwBw = rnd(1.0, 1.1); m.pvtwCw = rnd(1e-10, 1e-9); m.pvtwMuw = rnd(2e-4, 1e-3); m.pvtwCv = rnd(0, 1e-9);
@@ -615,7 +623,7 @@ int main(int argc, char** argv) {
         }
         // (4c) data::Solution conversion sequences (output side)
         {
-            const int nsol = thorough ? 400 : 60;
+            const int nsol = thorough ? 2000 : 60;
             for (int k = 0; k < nsol; ++k) {
                 const auto& u = systems[rng.below(systems.size())];
                 data::Solution sol(true);
@@ -641,7 +649,7 @@ int main(int argc, char** argv) {
         }
         // (5) parse / getNewDimension of every keyword string and of random composites, every system
         std::vector<std::string> strs = dims;
-        const int nrand = thorough ? 4000 : 400;
+        const int nrand = thorough ? 20000 : 400;
         for (int k = 0; k < nrand; ++k) strs.push_back(randomComposite(rng, k % 3 != 0));
         strs.insert(strs.end(), { "", "*", "**", "Length*", "*Length", "Length**Time", "/Length", "1/1", "Length/Length/Length",
                                   "Temperature", "Temperature*Length", "Length/Temperature", "ContextDependent", "Pressure*ContextDependent",
@@ -662,9 +670,15 @@ int main(int argc, char** argv) {
             }
         }
         // (6) DeckItem call sequences
-        const int nitems = thorough ? 6000 : 800;
+        const int nitems = thorough ? 30000 : 800;
         for (int k = 0; k < nitems; ++k) {
             ItemSpec sp = randomItem(rng, systems, true);
+            if (k == 0) {   // fixed first case: 100 ft (default dimension metres), get<double> before/after getSIDouble
+                sp = ItemSpec{};
+                sp.active = { systems[1].getDimension("Length") }; sp.dflt = { systems[0].getDimension("Length") };
+                sp.vals = { { 'v', 100.0 }, { 'd', 5.0 } };
+                sp.calls = { "g0", "s0", "g0", "g1", "D", "g0", "S", "s1" };
+            }
             // API-legal construction order only: a deck value after a dummy default throws in push_default
             bool dummySeen = false, legal = true;
             for (auto& v : sp.vals) { if (v.first == 'e') dummySeen = true; else if (v.first == 'd' && dummySeen) legal = false; }
@@ -675,7 +689,7 @@ int main(int argc, char** argv) {
             sink.count("item.calls", (long) sp.calls.size());
         }
         // (7) UDA items: which dimension get<UDAValue>(i) attaches (stateless)
-        const int nuda = thorough ? 3000 : 400;
+        const int nuda = thorough ? 10000 : 400;
         for (int k = 0; k < nuda; ++k) {
             ItemSpec sp = randomItem(rng, systems, true);
             for (auto& v : sp.vals) if (v.first == 'e') v.first = 'd';
@@ -748,7 +762,7 @@ int main(int argc, char** argv) {
             stats["physical"]++;
         }
         // (c) composite = product / quotient of the parts, on the real parse
-        const int ncomp = thorough ? 20000 : 2000;
+        const int ncomp = thorough ? 60000 : 2000;
         for (int k = 0; k < ncomp; ++k) {
             const auto& u = systems[rng.below(systems.size())];
             std::string a, b;
@@ -778,7 +792,7 @@ int main(int argc, char** argv) {
                 }
         }
         // (e) the lazy conversion of DeckItem: any interleaving of accessors shows the same raw / SI values
-        const int nitems = thorough ? 20000 : 3000;
+        const int nitems = thorough ? 60000 : 3000;
         for (int k = 0; k < nitems; ++k) {
             ItemSpec sp = randomItem(rng, systems, false);
             if (sp.active.empty() || sp.vals.empty()) continue;
@@ -824,7 +838,7 @@ int main(int argc, char** argv) {
         }
         // (f) deck level: one physical model written in the four unit systems gives the same SI values
         OpmLog::removeAllBackends();
-        const int ndecks = thorough ? 40 : 6;
+        const int ndecks = thorough ? 150 : 6;
         double maxVolErrInCondUlps = 0;
         for (int k = 0; k < ndecks; ++k) {
             const Model model = randomModel(rng, k % 2 == 1);
